@@ -31,7 +31,7 @@ NAME_POOL = ["Options", "OptionalFeature", "Option_", "Vec3", "Vector", "VecDequ
              "Results", "ResultSet", "Stringy", "StringList", "Str", "Boolean", "Bool", "I32Wrapper", "U8", "F64x", "Usize", "Channel2", "ChannelMsg",
              "Record", "Tuple", "Unit", "Boxed", "ArcItem", "T", "A", "Z9", "Item_V2", "HTTPResponse", "State2", "Window2", "AppHandle2", "Event", "Error",
              "Self_", "Some", "None_", "Ok", "Err", "Node", "User", "Config"]
-ROOT_KINDS = ["param", "return", "return-result-ok", "channel", "event-typed-param", "event-struct-expr", "event-let", "event-shadowed-let"]
+ROOT_KINDS = ["param", "return", "return-result-ok", "channel", "channel-only", "event-typed-param", "event-struct-expr", "event-let", "event-shadowed-let"]
 HDR = rg.PRELUDE + "use tauri::{AppHandle, Emitter, ipc::Channel};\n\n"
 
 
@@ -117,6 +117,8 @@ def gen_case(rnd, idx, forced_ctx=None, forced_root=None, n=None):
             cmds.append(rg.command_src(nm, [("x", "i32")], "Result<%s, %s>" % (rs.replace("&", "&'static "), e)))
         elif rk == "channel":
             cmds.append(rg.command_src(nm, [("x", "i32"), ("ch", "Channel<%s>" % rs.replace("&", "&'static "))], "i32"))
+        elif rk == "channel-only":
+            cmds.append(rg.command_src(nm, [("app", "AppHandle"), ("ch", "Channel<%s>" % rs.replace("&", "&'static "))], "i32"))
         elif rk == "event-typed-param":
             cmds.append("pub fn %s(app: AppHandle, v: %s) {\n    app.emit(\"ev-%s\", v).unwrap();\n}\n\n" % (nm, rs, nm))
         elif rk == "event-let":
